@@ -663,6 +663,41 @@ func main() {
 			run.Violate(ci, "mnemonic-bytearray-mismatch", at, det)
 		}
 		run.Count("entropies_roundtripped", 1)
+		// the same sentence written with other white space between and around its words (pasted from a file, one word
+		// per line, double blanks): a decoder that accepts it must return the entropy, and the two decoders must agree
+		// on whether it is a sentence at all
+		{
+			ws := strings.Fields(got)
+			sep := rng.PickS("  ", "\t", "\n", "\r\n", " \t ")
+			var b strings.Builder
+			if rng.Bool() {
+				b.WriteString(rng.PickS(" ", "\n", "\t"))
+			}
+			for k, w := range ws {
+				if k > 0 {
+					if k == 1+rng.Intn(len(ws)-1) || rng.Chance(1, 3) {
+						b.WriteString(sep)
+					} else {
+						b.WriteString(" ")
+					}
+				}
+				b.WriteString(w)
+			}
+			if rng.Bool() {
+				b.WriteString(rng.PickS(" ", "\n", "  "))
+			}
+			re := b.String()
+			e1, err1 := keystore.EntropyFromMnemonic(re)
+			e2, err2 := keystore.MnemonicToByteArray(re, true)
+			run.Count("respelled_sentences_decoded", 1)
+			d2 := map[string]interface{}{"entropy": hex.EncodeToString(ent), "sentence_quoted": fmt.Sprintf("%q", re), "EntropyFromMnemonic": fmt.Sprintf("%x %v", e1, err1), "MnemonicToByteArray": fmt.Sprintf("%x %v", e2, err2)}
+			switch {
+			case err1 == nil && !bytes.Equal(e1, ent), err2 == nil && !bytes.Equal(e2, ent):
+				run.Violate(ci, "respelled-mnemonic-decoded-differently", at, d2)
+			case (err1 == nil) != (err2 == nil):
+				run.Violate(ci, "mnemonic-decoders-disagree-on-a-respelled-sentence", at, d2)
+			}
+		}
 		// corrupted sentence: replace one word so that the checksum (per reference) is wrong, or use an unknown word
 		words := strings.Fields(got)
 		pos := rng.Intn(len(words))
